@@ -50,7 +50,8 @@ def forced_classes(tier):
          {"kind": "corpus", "shared": True, "order": 4}, {"kind": "pruned", "shared": True, "order": 5},
          {"kind": "corpus", "shared": True, "order": 6}, {"kind": "random", "shared": True, "order": 4},
          {"kind": "corpus", "unk": "absent", "order": 3}, {"kind": "pruned", "unk": "absent", "order": 5},
-         {"kind": "corpus", "unk": "absent", "order": 2}]
+         {"kind": "corpus", "unk": "absent", "order": 2},
+         {"kind": "corpus", "unk": "absent", "unk_in_ngrams": True, "order": 3}]
     abits = [1, 2, 3, 4, 6, 9, 22, 25, 64, 255]
     f += [{"kind": "fanout", "abits": a} for a in (abits if tier != "quick" else abits[1:10:2])]
     return f
